@@ -313,7 +313,10 @@ Definition failed_C16_mux (b : builder) (ops : list op) (cls : list rclass) (fil
         | None => [0]
         | Some vt =>
             clause 1 (listN_eqb (tr_sizes vt) (map (fun f => len (frame_video (cfg_codec b) (vf_data f))) (h_v h))) ++
-            clause 2 (listN_eqb (tr_durations vt) vdur) ++
+            clause 2 (listN_eqb (tr_durations vt) vdur &&
+                      match cfg_audio b, track_of HS trs with
+                      | Some _, Some at_ => listN_eqb (tr_durations at_) adur
+                      | _, _ => true end) ++
             clause 3 (match tr_cts vt with
                       | Some l => listZ_eqb l (map (fun f => (Z.of_N (vf_pts f) - Z.of_N (vf_dts f))%Z) (h_v h))
                       | None => forallb (fun f => vf_pts f =? vf_dts f) (h_v h) end) ++
